@@ -96,11 +96,85 @@ def inline_expr(e, fns, depth=2, stop=(), mod="", stack=(), log=None):
     return out
 
 
-def inline_item(item, fns, depth=2, stop=()):
-    """copy of a fn item whose body has the helpers of `fns` inlined; item["inlined"] lists the helpers that were"""
+def _closure_lets(params, args):
+    if len(params) != len(args):
+        return None
+    bound = set()
+    for p in params:
+        bound |= {x[1] for x in walk(p) if x[0] == "pident"}
+    for a in args:
+        if any(x[0] == "macro" or (x[0] == "path" and x[1] in bound) for x in walk(a)):
+            tmp = ["inl__arg%d" % i for i in range(len(args))]
+            return [["let", ["pident", t, False, False, None], a, None] for t, a in zip(tmp, args)] + \
+                   [["let", copy.deepcopy(p), ["path", t], None] for p, t in zip(params, tmp)]
+    return [["let", copy.deepcopy(p), a, None] for p, a in zip(params, args)]
+
+
+def inline_closures(body):
+    """copy of a statement list in which calls of LOCAL closures (`let f = |x| ..;  f(a)`) are replaced by `{ let x = a; <closure body> }`
+    (marked `inlined:closure`).  Only closures bound once by a plain `let <name> = |..| ..` whose name is bound nowhere else in the body and
+    never assigned are followed; the `let` is dropped when no other use of the closure remains."""
+    body = copy.deepcopy(body)
+    defs, count = {}, {}
+    for n in walk(body):
+        if n[0] == "pident":
+            count[n[1]] = count.get(n[1], 0) + 1
+        if n[0] == "let":
+            pat = n[1]
+            while is_node(pat) and pat[0] == "ptype":
+                pat = pat[1]
+            if is_node(pat) and pat[0] == "pident" and not pat[4] and is_node(n[2]) and n[2][0] == "closure":
+                defs[pat[1]] = n[2]
+    for n in walk(body):
+        if n[0] == "assign" and is_node(n[1]) and n[1][0] == "path":
+            count[n[1][1]] = count.get(n[1][1], 0) + 1
+    defs = {k: v for k, v in defs.items() if count.get(k) == 1}
+    if not defs:
+        return body
+
+    def sub(e, stack):
+        if isinstance(e, dict):
+            return {k: sub(v, stack) for k, v in e.items()}
+        if not isinstance(e, list):
+            return e
+        out = [sub(x, stack) for x in e]
+        if is_node(out) and out[0] == "call" and len(out) >= 3 and is_node(out[1]) and out[1][0] == "path" and out[1][1] in defs and out[1][1] not in stack:
+            c = defs[out[1][1]]
+            lets = _closure_lets(c[1], out[2])
+            if lets is not None:
+                cb = sub(copy.deepcopy(c[2]), stack + (out[1][1],))
+                return ["block", lets + [["expr", cb, False]], "inlined:closure"]
+        return out
+    res = sub(body, ())
+    # a closure whose every use was a call that is now inlined is dead: drop its `let` (its body would otherwise be seen once more than it runs)
+    used = {n[1] for n in walk(res) if n[0] == "path" and isinstance(n[1], str)}
+    dead = {k for k in defs if k not in used}
+
+    def prune(e):
+        if isinstance(e, dict):
+            return {k: prune(v) for k, v in e.items()}
+        if not isinstance(e, list):
+            return e
+        out = []
+        for x in e:
+            if is_node(x) and x[0] == "let":
+                pat = x[1]
+                while is_node(pat) and pat[0] == "ptype":
+                    pat = pat[1]
+                if is_node(pat) and pat[0] == "pident" and pat[1] in dead and is_node(x[2]) and x[2][0] == "closure":
+                    continue
+            out.append(prune(x))
+        return out
+    return prune(res) if dead else res
+
+
+def inline_item(item, fns, depth=2, stop=(), closures=True):
+    """copy of a fn item whose body has the helpers of `fns` (and, by default, its local closures) inlined; item["inlined"] lists the helpers that were"""
     log = []
     it = dict(item)
     it["body"] = inline_expr(copy.deepcopy(item["body"]), fns, depth, stop, item.get("mod") or "", (item["name"],), log)
+    if closures:
+        it["body"] = inline_closures(it["body"])
     it["inlined"] = sorted(set(log))
     return it
 
